@@ -12,7 +12,7 @@ RULE = ('base cases (model, per-rank batches, hyper-parameters, history of whole
         'variant are compared with each other, with the model\'s value terms (which the Lean theorem shows do not '
         'depend on the placement) and with single-process K-FAC on the union of the per-rank batches; '
         'non-trivial = world>1 and ≥2 placement variants and ≥2 steps'
-        ' (directed corners: pre-divided products with varying damping and interval > 1; explicit inverses of float32 factors; resume histories with every rank a separately spawned interpreter with its own hash seed over real gloo)')
+        ' (directed corners: pre-divided products with varying damping and interval > 1; explicit inverses of float32 factors; bfloat16 factors compared across placements and bucket capacities; resume histories with every rank a separately spawned interpreter with its own hash seed over real gloo)')
 TRUSTED = [
     'Lean 4.33 kernel; axioms audited ⊆ {propext, Classical.choice, Quot.sound}',
     'hand-written model KV.Precond tied to the real preconditioner by this correspondence (value terms evaluated in float64)',
@@ -87,6 +87,44 @@ def lowprec_stream(ctx):
         ctx.evaluations += 1
         ctx.case(('lowprec', str(base.describe())), nontrivial=True)
         ctx.count('lowprec-placements')
+    # factors kept in bfloat16 (factor_dtype): every placement AND every bucket capacity (per-tensor all-reduce, small and
+    # large buckets) averages the same half-precision tensors over the same group, so the gradients agree
+    for b in range(ctx.budget(3, 24)):
+        base = kfacsim.Config(rng, world=rng.choice([2, 3, 4]), method=rng.choice(['inverse', 'eigen']), prediv=False)
+        base.inv16, base.inv32, base.fac32, base.fac16, base.keepgrad = False, False, False, True, False
+        base.hyper['kl_clip'] = None
+        base.hyper['inv_update_steps'] = 1
+        base.hyper['factor_update_steps'] = 1
+        base.ops = (['f1'] * base.accum + ['s']) * rng.randrange(2, 4)
+        vs = []
+        for k in gen.divisors(base.world):
+            for cap in (0.0, 25.0, 0.0002):
+                v = copy.copy(base)
+                v.k, v.colocate, v.cap_mb = k, True, cap
+                vs.append(v)
+        rng.shuffle(vs)
+        vs = vs[:4] if any(v.cap_mb == 0.0 for v in vs[:4]) and any(v.cap_mb > 0 for v in vs[:4]) else vs[:6]
+        g0 = None
+        for j, v in enumerate(vs):
+            rr = kfacsim.run_real(v, sched_seed=ctx.seed * 79 + b * 10 + j)
+            if kfacsim.run_failed(rr):
+                ctx.fail(f'run failed: {kfacsim.run_failed(rr)}', v.describe(), 'run-failed')
+                break
+            g = grads_of(rr)
+            if g0 is None:
+                g0 = g
+                continue
+            bad = [(si, r, l, kfacsim.relerr(g[si][r][l], g0[si][0][l])) for si in range(len(g0)) for r in range(v.world)
+                   for l in range(len(g0[si][0])) if kfacsim.relerr(g[si][r][l], g0[si][0][l]) > 1e-6]
+            if bad:
+                si, r, l, e = bad[0]
+                ctx.fail(f'bfloat16 factors: step {si}, layer {l}, rank {r} with {v.k} gradient workers and bucket cap {v.cap_mb} MB '
+                         f'differs by {e:.2e} from rank 0 with {vs[0].k} workers and cap {vs[0].cap_mb} MB',
+                         dict(v.describe(), base_k=vs[0].k, base_cap=vs[0].cap_mb), 'placement-dependent-halffactors')
+                break
+        ctx.evaluations += 1
+        ctx.case(('halffactors', str(base.describe())), nontrivial=True)
+        ctx.count('halffactor-placements')
 
 
 def interpreter_stream(ctx):
